@@ -21,6 +21,7 @@ TOKENS = [
     ("ß", "raw-nonascii"), ("%C3%9F", "esc-utf8"), ("ſ", "raw-nonascii"),
     ("%E2%84%85", "esc-nfkc-lookalike"), ("%E2%81%87", "esc-nfkc-lookalike"), ("%E2%A9%B4", "esc-nfkc-lookalike"),
     ("%c3%bc", "esc-utf8-lower"), ("%bc", "non-utf8-lower-letters"), ("%ff", "non-utf8-lower-letters"),
+    ("\u3000", "raw-unicode-space"), ("\xa0", "raw-unicode-space"), ("\u2003", "raw-unicode-space"), ("%E3%80%80", "esc-unicode-space"),
     ("%5B", "esc-bracket"), ("%5D", "esc-bracket"), ("%5b", "esc-bracket"), ("[", "raw-bracket"), ("]", "raw-bracket"),
     ("amp;", "amp-entity-tail"), ("amp%3B", "amp-entity-tail"), ("%2541", "nested"), ("%252F", "nested"), ("%25%34%31", "nested"), ("%2525", "nested"),
 ]
@@ -30,7 +31,7 @@ for t, c in TOKENS:
 
 # the core alphabet enumerated exhaustively (one or two representatives per class of the quantifier)
 CORE = ["a", "z", "1", ".", "!", "+", ":", "@", "/", "?", "=", "&", "#", "%2F", "%3F", "%23", "%26", "%3D", "%40", "%3A", "%25", "%2B", "%41", "%34", "%c3%a9", "%cE%b1",
-        "é", " ", "%20", "%", "%4", "%zz", "%4٣", "%EF%BC%A0", "%5B", "%E2%80%8B", "%E9", "%E2%82", "%00", "%0A", "%7F", "%C2%80", "%2541"]
+        "é", " ", "%20", "%", "%4", "%zz", "%4٣", "%EF%BC%A0", "%5B", "%E2%80%8B", "\u3000", "%E9", "%E2%82", "%00", "%0A", "%7F", "%C2%80", "%2541"]
 
 
 def classes_of(tokens):
